@@ -582,6 +582,7 @@ theorem toMarrow_decode_partial (ext : Ext) (fields : List Field) (rows : List S
     (hcov : fields.all Build.coveredF = true)
     (hsafe : ∀ root0, newRoot fields = .ok root0 → Safe root0)
     (hraw : ∀ x ∈ rows, Build.noRaw x = true)
+    (hsmall : ∀ root, runRows ext fields rows = .ok root → Lemmas.C03.ViewSmall root)
     (h : toMarrow ext fields rows = .ok arrs) :
     ∃ cols : List (String × List LVal),
       arrs.map decodeAll = cols.map (fun c => c.2.map .ok) ∧
@@ -600,7 +601,7 @@ theorem toMarrow_decode_partial (ext : Ext) (fields : List Field) (rows : List S
   obtain ⟨hw, _, _, _⟩ := Props.C01.runRows_rows ext fields rows root0 root h0 hs0
     (fun x hx => Build.noRaw_rawOK x (hraw x hx)) hrun
   obtain ⟨hall, hcols, p, fs, cached, next, seen, rfl, hdec⟩ :=
-    Props.C01.runRows_interp ext fields rows root0 root hcov h0 hs0 hraw hrun
+    Props.C01.runRows_interp ext fields rows root0 root hcov h0 hs0 hraw hrun (hsmall root hrun)
   have hfacts := root_facts ext fields rows _ hmap hschema (Build.push_takeRest ext) hw
     (Lemmas.C03.WFB_StrictDict _ hw) hrun
   simp only [buildArrays, bind, Except.bind] at hba
